@@ -403,6 +403,24 @@ func c20(c *Ctx) {
 				}
 			}
 			good = good && okPred
+			if !good {
+				// the same written out: `if IsAlreadyExists(err) { return nil }; if err != nil { return wrapped }`
+				exists := ev.PredTrue["errors.IsAlreadyExists"]
+				if len(exists) > 0 && len(ev.Filtered) == 0 {
+					spelled := true
+					for _, r := range cfgx.ErrorReturnsFrom(ev.Fail, exists) {
+						if !r.NonNil {
+							spelled = false // some other failure of the Create ends in success
+						}
+					}
+					for name := range ev.PredTrue {
+						if name != "errors.IsAlreadyExists" {
+							spelled = false
+						}
+					}
+					good = spelled
+				}
+			}
 		}
 		c.R.Check(good, load.FuncName(fn)+": create-if-absent", c.pos(fn.Pos()), "a single Create whose AlreadyExists error is ignored", "the default object is not created with create-if-absent semantics (single Create, AlreadyExists ignored)")
 	}
